@@ -1397,9 +1397,17 @@ class SArr:
         from . import npshim
         return npshim.reshape(self, shape[0] if len(shape) == 1 else shape)
 
-    def flatten(self):
+    def flatten(self, order='C'):
         from . import npshim
+        if order != 'C':
+            raise Unsupported('flatten order %r (memory layout is not modelled)' % (order,))
         return npshim.reshape(self, -1).copy()
+
+    def ravel(self, order='C'):
+        from . import npshim
+        if order != 'C':
+            raise Unsupported('ravel order %r (memory layout is not modelled)' % (order,))
+        return npshim.reshape(self, -1)
 
     def dot(self, o):
         """matrix product for a concrete small inner dimension (ASSUMED numpy contract: sum over the shared axis)"""
